@@ -17,7 +17,7 @@ LEVEL = ("Generated-input exploration: explicit random features give K = Phi Phi
          "by the common scale, for all with_center / with_trace combinations and weight kinds; trace, weighted column means and "
          "Nystrom trace are checked directly. No absence claim: strength = the counted distinct non-trivial cases in the evidence.")
 BUDGET = {"quick": 1500, "thorough": 25000}
-RULE = ("Cases: n in 2..12 (thorough 40) training samples with 1..8 explicit features plus a drawn offset, 1..9 test samples, "
+RULE = ("Cases: n in 2..12 (thorough 40) training samples with 1..8 explicit features of global magnitude {1e-7,1e-3,1,1e3} plus a drawn offset, 1..9 test samples, "
         "weights None / uniform / real positive / integer multiplicities, all with_center / with_trace combinations, active sets of "
         "1..n training samples (or arbitrary feature vectors) for the sparse variant.  Non-trivial: n >= 3 and centring or trace scaling "
         "switched on; distinct = SHA-1 of the canonical case.")
@@ -33,8 +33,10 @@ def strategy_(draw, tier):
     d = draw(st.integers(1, 8))
     nt = draw(st.integers(1, 9))
     off = gen.normal(draw, (d,)) * draw(st.sampled_from([0.0, 1.0, 5.0]))
-    P = gen.normal(draw, (n, d)) + off
-    Pt = gen.normal(draw, (nt, d)) + off
+    gs = draw(st.sampled_from([1.0, 1.0, 1e-3, 1e-7, 1e3]))        # kernels of any magnitude
+    off = off * gs
+    P = gen.normal(draw, (n, d)) * gs + off
+    Pt = gen.normal(draw, (nt, d)) * gs + off
     wk = draw(st.sampled_from(["none", "uniform", "real", "int"]))
     if wk == "none":
         w = None
@@ -49,7 +51,7 @@ def strategy_(draw, tier):
         act = draw(st.lists(st.integers(0, n - 1), min_size=ma, max_size=ma, unique=True))
         Pm = P[act]
     else:
-        Pm = gen.normal(draw, (ma, d)) + off
+        Pm = gen.normal(draw, (ma, d)) * gs + off
     return {"P": P, "Pt": Pt, "Pm": Pm, "w": w, "wkind": wk, "with_center": draw(st.booleans()), "with_trace": draw(st.booleans())}
 
 
@@ -67,10 +69,11 @@ def check(case, ctx):
     mu = (ww[:, None] * P).sum(0) if wc else np.zeros(d)
     Pc, Ptc = P - mu, Pt - mu
     scale = np.trace(Pc @ Pc.T) / n if wt else 1.0
-    if scale < 1e-10:
+    kmag = max(float(np.abs(K).max()), 1e-300)
+    if scale < 1e-10 * kmag:
         ctx.skip("centred kernel has (almost) zero trace")
         return
-    tol = 1e-8 * max(1.0, float(np.abs(K).max()) / scale)
+    tol = 1e-8 * max(1.0, kmag / scale) if wt else 1e-8 * kmag
     K0, Kt0 = K.copy(), Kt.copy()
     with ctx.lib("KernelNormalizer"):
         kn = KN(with_center=wc, with_trace=wt).fit(K, sample_weight=w)
@@ -85,7 +88,7 @@ def check(case, ctx):
         # trace scaling switched off: only the centring acts
         ctx.close("no-trace-scaling", A, Pc @ Pc.T, tol, "with_trace=False must not rescale")
     if not wc and not wt:
-        ctx.close("identity", A, K, 1e-12 * max(1.0, np.abs(K).max()), "both switched off: kernel unchanged")
+        ctx.close("identity", A, K, 1e-12 * kmag, "both switched off: kernel unchanged")
     ctx.close("fit_transform", Aft, A, 1e-12 * max(1.0, np.abs(A).max()), "fit_transform vs fit+transform")
     ctx.close("input-untouched", K, K0, 0.0, "training kernel modified in place")
     ctx.close("input-untouched-test", Kt, Kt0, 0.0, "test kernel modified in place")
@@ -98,7 +101,8 @@ def check(case, ctx):
     # a singular value of Kmm near the pinv cut-off makes the Nystrom scale ill-defined
     sv = np.linalg.svd(Kmm, compute_uv=False)
     grey = bool(np.any((sv > 1e-14 * sv[0]) & (sv < 1e-9 * sv[0]))) if sv[0] > 0 else True
-    if not np.isfinite(sc2) or sc2 < 1e-6 or grey:
+    nmag = max(float(np.abs(Knm).max()), 1e-300)
+    if not np.isfinite(sc2) or (wt and sc2 < 1e-6) or grey:
         ctx.skip("sparse: Nystrom scale ill-defined")
     else:
         with ctx.lib("SparseKernelCenterer"):
@@ -106,11 +110,11 @@ def check(case, ctx):
             Z = sk.transform(Knm)
             Zt = sk.transform(Ktm)
             Zft = SKC(with_center=wc, with_trace=wt).fit_transform(Knm, Kmm, sample_weight=w)
-        t2 = 1e-7 * max(1.0, float(np.abs(Knm).max()) / sc2)
+        t2 = 1e-7 * max(1.0, nmag / sc2) if wt else 1e-7 * nmag
         ctx.close("sparse:train-block", Z, (Knm - mu_cols) / sc2, t2, "transformed K_nm vs (K_nm - weighted column means)/scale")
         ctx.close("sparse:test-block", Zt, (Ktm - mu_cols) / sc2, t2, "transformed test block")
         if wc:
-            ctx.close("sparse:column-means-vanish", (ww[:, None] * Z).sum(0), np.zeros(Z.shape[1]), 1e-8 * max(1.0, np.abs(Z).max()),
+            ctx.close("sparse:column-means-vanish", (ww[:, None] * Z).sum(0), np.zeros(Z.shape[1]), 1e-8 * max(np.abs(Z).max(), 1e-300) if not wt else 1e-8 * max(1.0, np.abs(Z).max()),
                       "weighted column means of the transformed training block")
             # equals the feature-space expression
             ctx.close("sparse:feature-space", Z, Knm_c / sc2, t2, "vs Gram matrix of centred features with the active set")
